@@ -668,7 +668,11 @@ fn gen_op(rng: &mut Rng, w: u32, h: u32) -> Op {
 }
 
 fn random_history(rng: &mut Rng, rep: &mut Report, idx: u64) {
-    let maxd = rng.pick(&[3u32, 6, 12, 24]);
+    random_history_sized(rng, rep, idx, &[3, 6, 12, 24])
+}
+
+fn random_history_sized(rng: &mut Rng, rep: &mut Report, idx: u64, sizes: &[u32]) {
+    let maxd = rng.pick(sizes);
     let (w, h) = (rng.below(maxd as u64 + 1) as u32, rng.below(maxd as u64 + 1) as u32);
     let root = if rng.chance(1, 3) {
         // direct construction: stride ≥ width, surplus backing data
@@ -828,4 +832,13 @@ pub fn run(cfg: &Cfg, rep: &mut Report) {
     for op in ["get", "get_mut", "index_point", "index_point_mut", "index_row", "index_row_mut", "rows", "rows_mut", "iter", "iter_mut", "fill", "fill_with", "copy_from", "dims"] {
         rep.floor(&format!("op.{op}"), 20_000);
     }
+}
+
+/// Reduced workload for Miri: a few random histories on buffers ≤ 6x6 and
+/// one exhaustive small configuration.
+pub fn mini(rng: &mut Rng, n: usize, rep: &mut Report) {
+    for i in 0..n {
+        random_history_sized(rng, rep, 1_000_000 + i as u64, &[2, 3, 6]);
+    }
+    exhaustive_small(rep, 2, 2, rng.usize(9), rng);
 }
